@@ -180,7 +180,7 @@ Proof. split; [constructor|]. intros k v H. discriminate. Qed.
 
 Theorem CI_preserved w o : CI w -> CI (fst (cstep w o)).
 Proof.
-  intros (Nd & I). unfold CI. destruct o as [k|k v|]; cbn [cstep].
+  intros (Nd & I). unfold CI. destruct o as [k|k v| |k]; cbn [cstep]; [| | |cbn [fst cache pendingq tracked]; split; [exact Nd|]; intros j u H; destruct (I j u H) as [P|(T & S)]; [left; exact P|right; split; [|exact S]]; destruct (Nat.eq_dec j k) as [->|N]; [left; reflexivity|right; apply remove_key_in; split; assumption]].
   - destruct (cget k (cache w)) as [v|] eqn:E; cbn [fst cache pendingq tracked].
     + split; [apply cset_nodup; exact Nd|]. intros j u H. destruct (Nat.eq_dec j k) as [->|N].
       * rewrite cget_cset_same in H. inversion H; subst. apply (I k u E).
@@ -236,7 +236,7 @@ Proof. induction m as [|[j u] m IH]; cbn; [lia|]. destruct (Nat.eqb j k); cbn; l
 (* C20: the cache never holds more than its capacity *)
 Theorem cache_within_capacity w o : length (cache w) <= cap w -> length (cache (fst (cstep w o))) <= cap (fst (cstep w o)).
 Proof.
-  intros H. destruct o as [k|k v|]; cbn [cstep].
+  intros H. destruct o as [k|k v| |k]; cbn [cstep]; [| | |exact H].
   - destruct (cget k (cache w)) as [v|] eqn:E; cbn [fst cache cap].
     + unfold cset. rewrite app_length. cbn. pose proof (cdel_length_lt k v _ E). lia.
     + unfold trim. assert (length (cset k (server_val w k) (cache w)) <= S (length (cache w))) as B
@@ -245,4 +245,18 @@ Proof.
       destruct (cset k (server_val w k) (cache w)); cbn [tl length] in *; lia.
   - destruct (Nat.eqb v 0 && _); [exact H|]. destruct (existsb _ _); cbn; exact H.
   - destruct (pendingq w); [exact H|]. cbn [fst cache cap]. pose proof (cdel_length_le k (cache w)). lia.
+Qed.
+
+(* membership is the server's truth whatever the cache holds: after a delete by anyone, `k in store` is false at once, also while
+   the invalidation is still pending and a cached view would still return the old value *)
+Theorem membership_is_current l c k :
+  let w := crun (cinit c) l in let w' := fst (cstep w (CHas k)) in
+  snd (cstep w (CHas k)) = Some (if Nat.eqb (server_val w k) 0 then 0 else 1) /\ kv w' = kv w /\ cache w' = cache w /\ pendingq w' = pendingq w.
+Proof. intros w. cbn [cstep]. repeat split; reflexivity. Qed.
+Theorem membership_false_right_after_delete w k :
+  snd (cstep (fst (cstep w (CWrite k 0))) (CHas k)) = Some 0.
+Proof.
+  cbn [cstep]. destruct (Nat.eqb 0 0 && _) eqn:E.
+  - cbn [fst snd]. apply andb_true_iff in E as [_ E]. unfold server_val. destruct (cget k (kv w)); [discriminate|]. reflexivity.
+  - destruct (existsb _ _); cbn [fst snd]; unfold server_val; cbn [kv Nat.eqb]; rewrite cget_cdel_same; reflexivity.
 Qed.
